@@ -797,6 +797,22 @@ end
 /-- Generator.GenerateSchemaRef -/
 def genRoot (Δ : Decls) (o : Opts) (fuel : Nat) (t : GoType) : R × St := genRef Δ o fuel [] "_root" t {}
 
+/-! ### reuse: several `GenerateSchemaRef` calls on ONE `Generator` (the type table `g.Types`, `g.SchemaRefs` and
+    `componentSchemaRefs` are kept between the calls) -/
+/-- the generator state after generating for the types `pre`, in this order, starting from state `σ` -/
+def genSeq (Δ : Decls) (o : Opts) (fuel : Nat) : List GoType → St → St
+  | [], σ => σ
+  | t :: ts, σ => genSeq Δ o fuel ts (genRef Δ o fuel [] "_root" t σ).2
+/-- `g := NewGenerator(opts…); for p in pre { g.GenerateSchemaRef(p) }; g.GenerateSchemaRef(t)` -/
+def genAfter (Δ : Decls) (o : Opts) (fuel : Nat) (pre : List GoType) (t : GoType) : R × St :=
+  genRef Δ o fuel [] "_root" t (genSeq Δ o fuel pre {})
+/-- exclusion class (finding F-C18-7): an earlier call on the same generator was for a POINTER type. The root pointer is
+    not nullable (`nullable = !isRoot`), but the schema is entered into `g.Types` under the pointer type, where a later
+    field / element of that pointer type finds it. -/
+def rootPtrBeforeB (pre : List GoType) : Bool := pre.any isPtr
+def RootPtrBefore (pre : List GoType) : Prop := rootPtrBeforeB pre = true
+instance : Decidable (RootPtrBefore pre) := by unfold RootPtrBefore; exact inferInstance
+
 /-! ### fuel that suffices (`gen_finite`: with `enoughFuel Δ t` the generator never runs out) -/
 mutual
 def costB (K : Nat) : GoType → Nat
